@@ -164,11 +164,57 @@ class C12(PropBase):
             run.generate(WEIGHTS, cfg["n_steps"], 0.0)
         else:
             run.replay(ctx.doc["steps"])
+        self.autonames(ctx, run)
         run.finish()
         ops = ctx.stats.get("ops", {})
         rej = ctx.stats.get("rejected", {})
         acc = sum(ops.get(k, 0) - rej.get(k, 0) for k in ("add_bases", "remove_bases", "rename_cells", "rename_space"))
         ctx.nontrivial = ctx.nontrivial or acc > 0
+
+
+    def autonames(self, ctx, run):
+        """Cells created without a name (deterministic epilogue on the model the history left behind): the automatic name is
+        as free as a given one has to be - also in the sub spaces, where the name may be taken by a reference or a child
+        space of the sub space's own."""
+        m = run.mach.world.m
+        oracle = run.oracles[0]
+
+        def walk(p):
+            for c in p.spaces.values():
+                yield c
+                yield from walk(c)
+        spaces = sorted(walk(m), key=objpath)
+        for s in spaces:
+            subs = [t for t in spaces if any(b is s for b in t.bases)]
+            if not subs:
+                continue
+            sub = subs[0]
+            taken = set(dir(sub)) | set(dir(s))
+            made = []
+            for k in range(1, 8):
+                n = "Cells%d" % k
+                if n in taken:
+                    continue
+                try:
+                    if len(made) % 2 == 0:
+                        setattr(sub, n, 5)
+                    else:
+                        sub.new_space(n)
+                    made.append(n)
+                except Exception:
+                    pass
+                if len(made) == 2:
+                    break
+            got = []
+            for i in range(3):
+                try:
+                    got.append(s.new_cells(formula="lambda: %d" % i).name)
+                except Exception as e:
+                    got.append(type(e).__name__)
+            run.mach.events.append("autonames %s in %s: %s -> %s" % (objpath(s), objpath(sub), made, got))
+            ctx.count("autoname_epilogues", 1, "reach")
+            oracle.check_model(m, {"op": "new_cells-without-a-name"})
+            break
 
 
 PROP = C12()
